@@ -82,7 +82,7 @@ var mbLetters = []string{"é", "ñ", "ü", "Ж", "я", "ポ", "ケ", "漢", "字
 	"Ġ", "ĉ", "Ċ", "č", "三", "上", "不", "Ģ", "ģ", "į", "Ĩ", "ĩ", "Ĭ", "ĺ", "Ż", "Ž", "Š", "İ", "Ā", "Ŝ"}
 var strayASCII = []string{"@", "$", ";", "&", "|", "/", "-", ".", "?", "%", "+", "'", "\\", "~", "^"}
 var strayMB = []string{"→", "€", "♥", "…", "¿", "★", "😀", "§", "«", "†", "•", "‣", "‰", "℠"}
-var prefixes = []string{"ascii", "braille", "custom", "é", "utf8_ポ", "a1", "_s", "text", "if", "format", "raw", "const"}
+var prefixes = []string{"ascii", "braille", "custom", "é", "utf8_ポ", "a1", "_s", "text", "if", "format", "raw", "const", "string"}
 
 func isWordRune(r rune) bool { return r == '_' || unicode.IsLetter(r) || unicode.IsDigit(r) }
 
